@@ -21,7 +21,8 @@ def gen(rnd, cls):
                            repr(round(rnd.uniform(-50, 50), 2))])
     if cls == 'text':
         return rnd.choice(['abc', 'hello world', 'x1', '#', 'ñ', 'a', 'A', 'abd', 'TRUE', 'true', ' ', 'é', 'Zebra', 'zebra', '12abc',
-                           '1,5', 'ab' + chr(rnd.randint(97, 122)), '你好', '#N/A', '#DIV/0!', '#REF!', '#NAME?', '#NUM!', '#NULL!', '#VALUE!', '#ERROR!'])
+                           '1,5', 'ab' + chr(rnd.randint(97, 122)), '你好', '#N/A', '#DIV/0!', '#REF!', '#NAME?', '#NUM!', '#NULL!', '#VALUE!', '#ERROR!',
+                           'nan', 'inf', '-inf', 'Infinity', 'NaN', '1_000', '1__0', '0x10', '1e', 'e5', '3+4i', 'i', '2j', '1e999', 'a\x00', '\u00e9\x00', '\x00'])
     if cls == 'emptytext':
         return ''
     if cls == 'date':
